@@ -93,6 +93,10 @@ class Info:
     n: int
     x: float
     t: Trk
+    # a dataclass can have methods too
+    def twice(self) -> int: ...
+    def best(self, k: int = 2) -> Trk: ...
+    def all_t(self) -> Iterable[Trk]: ...
 class Jet(Base):
     def pt(self) -> float: ...
     def ntrk(self) -> int: ...
